@@ -202,9 +202,21 @@ def sample(ctx, budget=1.0, hint=None, broken=None):
         if len(fails) < 40 and sum(1 for f in fails if f['signature'] == sig) < 2:
             fails.append(Failure(signature=sig, what=what, input=inp, observed=obs, expected=exp, repro=repro))
 
+    def ztyped(z):
+        # the query point as the caller may well have it: a numpy scalar or 0-d array (a coordinate taken out of an array)
+        c_ = r.random()
+        if c_ < 0.12:
+            return np.complex128(z), 'numpy.complex128(%r)' % (complex(z),)
+        if c_ < 0.24:
+            return np.array(complex(z)), 'numpy.array(%r)' % (complex(z),)
+        if c_ < 0.30 and complex(z).imag == 0:
+            return np.float64(complex(z).real), 'numpy.float64(%r)' % (complex(z).real,)
+        return z, repr(z)
+
     def check_seg(seg, z, kind, where):
         desc = repr(seg)
-        rep = 'svgpathtools.%s.radialrange(%r)' % (desc, z)
+        z, zrep = ztyped(z)
+        rep = 'svgpathtools.%s.radialrange(%s)' % (desc, zrep)
         try:
             (dmin, tmin), (dmax, tmax) = seg.radialrange(z)
         except Exception as e:
@@ -286,6 +298,9 @@ def sample(ctx, budget=1.0, hint=None, broken=None):
              'beside': segs[kb].point(r.uniform(0.35, 0.65)) + 1j * chord * r.choice([0.02, -0.02, 0.1, -0.005])}[where]
         n_eval += 1
         nontriv.add(('path', n, where))
+        z, zrep_ = ztyped(z)
+        if not isinstance(z, complex):
+            nontriv.add(('path', n, where, type(z).__name__))
         try:
             gmin, gmax = path.radialrange(z)
             cl = P.closest_point_in_path(z, path)
@@ -301,7 +316,7 @@ def sample(ctx, budget=1.0, hint=None, broken=None):
         allmax = max(float(p.max()) for p in per)
         L = path.length()
         tol = 1e-5 * (L + abs(z))
-        rep = 'svgpathtools.%s.radialrange(%r)' % (desc, z)
+        rep = 'svgpathtools.%s.radialrange(%s)' % (desc, zrep_)
         if tuple(cl) != tuple(gmin) or tuple(fa) != tuple(gmax):
             fail('closest/farthest_point_in_path', 'closest/farthest_point_in_path disagree with radialrange', {'path': desc, 'z': repr(z)}, repr((cl, fa)), repr((gmin, gmax)), rep)
         if gmin[0] > allmin + tol:
